@@ -596,6 +596,11 @@ class FileSystem(SimComponent):
         self.deleted_folders.pop(folder.uuid, None)
         folder.restore()
         self.folders[folder.uuid] = folder
+        # requests are routed by folder name: make the route point at the restored object (a folder of the same name may
+        # have been created and deleted in the meantime, which left the route pointing at that - still deleted - one)
+        self._folder_request_manager.add_request(
+            name=folder.name, request_type=RequestType(func=folder._request_manager)
+        )
         return True
 
     def restore_file(self, folder_name: str, file_name: str) -> bool:
